@@ -56,8 +56,10 @@ package connlist
 //@ import logger "github.com/np-guard/netpol-analyzer/pkg/logger"
 //@ pred caLoggerOK(l logger.Logger) = l != nil && (dyntype(l, *logger.DefaultLogger) ==> (unwrap(l, *logger.DefaultLogger) != nil && unwrap(l, *logger.DefaultLogger).l != nil))
 //@ func (*ConnlistAnalyzer).ConnlistFromDirPath
-//@   requires ca != nil && caLoggerOK(ca.logger)
+//@   requires ca != nil && caLoggerOK(ca.logger) && clErrsOK(ca)
 //@   modifies *
+//@   loop 1:
+//@     invariant errsok: clErrsOK(ca) && caLoggerOK(ca.logger)
 //@   before call 2:
 //@     assert [C13,C18] scanfailed: len(errs) > 0
 //@   before call 6:
@@ -186,3 +188,29 @@ package connlist
 //@   ensures [C16] nowarn: existFocusWorkload ==> warning == ""
 //@   loop 1:
 //@     invariant none: forall i int :: {ca.peersList[i]} (0 <= i && i <= rangeindex) ==> !focusMatch(ca, ca.peersList[i])
+
+// the three-line copy loop stores &fpErrs[i] (an interior pointer kept in the heap - outside the verified subset): assumed
+//@ func (*ConnlistAnalyzer).copyFpErrs
+//@   trusted
+//@   requires ca != nil
+//@   modifies ca.errors
+//@   ensures [C13] kept: len(ca.errors) == old(len(ca.errors)) + len(fpErrs) && (forall i int :: {ca.errors[i]} (0 <= i && i < old(len(ca.errors))) ==> ca.errors[i] == old(ca.errors[i]))
+//@   ensures [C13] added: forall i int :: {ca.errors[i]} (old(len(ca.errors)) <= i && i < len(ca.errors)) ==> (dyntype(ca.errors[i], *parser.FileProcessingError)
+//@         && unwrap(ca.errors[i], *parser.FileProcessingError) != nil
+//@         && unwrap(ca.errors[i], *parser.FileProcessingError).fatal == fpErrs[i - old(len(ca.errors))].fatal
+//@         && unwrap(ca.errors[i], *parser.FileProcessingError).severe == fpErrs[i - old(len(ca.errors))].severe)
+
+// the analysis proper is entered only if no error recorded so far is fatal, or severe under stop-on-first-error (C13)
+//@ func (*ConnlistAnalyzer).ConnlistFromResourceInfos
+//@   requires ca != nil && caLoggerOK(ca.logger) && clErrsOK(ca)
+//@   modifies *
+//@   after call 2:
+//@     assert [C13] errsok: clErrsOK(ca)
+//@   before call 5:
+//@     assert [C13] nostop: forall i int :: {ca.errors[i]} (0 <= i && i < len(ca.errors)) ==> !(clErrFatal(ca.errors[i]) || (ca.stopOnError && clErrSevere(ca.errors[i])))
+
+// boundary of the stop-on-error contracts: the analysis proper (engine construction, ingress analysis, pair loop) - thin contract, callers learn nothing from it
+//@ func (*ConnlistAnalyzer).connsListFromParsedResources
+//@   nosafety
+//@   requires ca != nil
+//@   modifies *
